@@ -823,6 +823,26 @@ pub fn gen_config(rng: &mut Rng) -> Case {
         }
     }
     let inv = Invocation { opts, stdin, faults, sched: random_sched(rng), dir_key: rng.next(), pre_edits: vec![] };
+    // both configuration names in one directory.  Which of the two wins is not documented, so
+    // either is accepted (check::execute) — but the choice must not depend on the order in which
+    // the directory happens to list them (check::check_case runs the twin with the order flipped).
+    // Drawn last so that the rest of the case is the same as without this block.
+    if rng.chance(12) {
+        let cfgs: Vec<String> =
+            w.files.keys().filter(|k| k.ends_with("/stylua.toml") || k.ends_with("/.stylua.toml")).cloned().collect();
+        if !cfgs.is_empty() {
+            let c: String = rng.pick(&cfgs).clone();
+            let other = match c.strip_suffix("/.stylua.toml") {
+                Some(d) => format!("{d}/stylua.toml"),
+                None => format!("{}/.stylua.toml", c.strip_suffix("/stylua.toml").unwrap()),
+            };
+            if !w.files.contains_key(&other) {
+                let o = random_option_set(rng, 3);
+                w.files.insert(other, toml_text(&o).into_bytes());
+            }
+            w.create_rev = rng.chance(50);
+        }
+    }
     Case { family: "config".into(), world: w, invs: vec![inv] }
 }
 
